@@ -4,6 +4,7 @@ import (
 	"bytes"
 	"fmt"
 	"sort"
+	"strings"
 	"testing"
 	"time"
 
@@ -512,6 +513,7 @@ func init() {
 	replayRegistrars = append(replayRegistrars, func() {
 		registerReplay("C01/inprocess", func(c wireCase) *fail { return runWireCase(c, nil) })
 		registerReplay("C01/raw-peer", runRawCase)
+		registerReplay("C01/client-pairs", runClientPairCase)
 	})
 }
 
@@ -519,6 +521,23 @@ func TestC01(t *testing.T) {
 	h := begin(t, "C01")
 	defer h.Finish()
 	env := h.Env
+	// two replies to one client decoded back to back: every caller reconstructs the
+	// values of its own reply frame (engine of C18)
+	for rep := 0; rep < env.Pick(16, 320)/env.NShards+1; rep++ {
+		c := clientPairCase{Native: rep%2 == 1}
+		for i := 0; i < 30; i++ {
+			c.Kinds = append(c.Kinds, clientPairKinds[(i+rep+env.Shard)%len(clientPairKinds)])
+		}
+		f := runClientPairCase(c)
+		h.Case(evid.HashJSON(c)+uint64(rep*64+env.Shard), true, "client:two-replies-back-to-back")
+		if f != nil && strings.HasPrefix(f.Sig, "harness-") {
+			t.Errorf("HARNESS-ERROR %s", f.Msg)
+			continue
+		}
+		if h.report("client-pairs", f, c) {
+			return
+		}
+	}
 	// the hook's registry and the reference table must name the same 65 types
 	if env.Shard == 0 {
 		reg := p9.VerifRegisteredTypes()
